@@ -463,6 +463,8 @@ def run_impl(case):
             with vlib.time_limit(60):
                 if case['kind'] == 'store':
                     return _run_store(case, path)
+                if case['kind'] == 'pinned':
+                    return _run_pinned(case)
                 return _run_doc(case, path)
     except vlib.Timeout:
         return {'hang': True}
@@ -531,6 +533,25 @@ def _run_doc(case, path):
     b2 = DictBackend()
     PulseStorage(b2)[o[1].identifier] = o[1]
     return {'be': be, 'ok': True, 'redoc': _read_backend(b2)}
+
+
+def _run_pinned(case):
+    """documents written by the pinned code (verbatim texts from the corpus) loaded by the code as it is now"""
+    from qupulse.serialization import PulseStorage, DictBackend
+    from props import c10_pin
+    backend = DictBackend()
+    for k, text in case['docs'].items():
+        backend.put(k, text)
+    be = _read_backend(backend)
+    o = _outcome(lambda: PulseStorage(backend)[case['load']])
+    if o[0] != 'ok':
+        return {'be': be, 'ok': False, 'why': o[1]}
+    loaded = _outcome(lambda: introspect(o[1], {}))
+    if loaded[0] != 'ok':
+        return {'be': be, 'ok': False, 'why': 'introspect:' + loaded[1]}
+    iface = c10_pin.iface_of(o[1])
+    return {'be': be, 'ok': True, 'loaded': loaded[1], 'iface_ok': iface == case['iface'],
+            'iface_diff': None if iface == case['iface'] else [iface, case['iface']]}
 
 
 # ---------------------------------------------------------------------------------------------------------------------
@@ -658,6 +679,9 @@ def to_coq(case, obs):
             glist(lambda op: '(%d%%nat, %d%%nat)' % (op[0], op[1]), case['ops']),
             glist(lambda r: SRES.get(r, 'SErrOther'), obs['res']),
             g_backend(obs['be']), '[' + '; '.join(loads) + ']')
+    if case['kind'] == 'pinned':
+        return '(CPinned %s %s %s %s %s)' % (g_backend(obs['be']), gstr(case['load']), g_pt(case['expect']),
+                                            gopt(g_pt, obs.get('loaded')), gbool(obs.get('iface_ok', False)))
     return '(CDoc %s %s %s %s)' % (g_backend(obs['be']), gstr(case['load']), gbool(obs['ok']), g_backend(obs['redoc']))
 
 
@@ -676,6 +700,8 @@ def nontrivial(case, obs):
                     kids.append(d[k])
             return (not top and d['id'] is not None) or any(named_below(c, False) for c in kids)
         return any(named_below(r) for r in obs['roots'])
+    if case.get('kind') == 'pinned':
+        return len(case['docs']) > 1
     return obs.get('ok', False) and obs.get('redoc') != obs.get('be')
 
 
@@ -696,6 +722,8 @@ def histogram_keys(case, obs):
             keys.extend([k] * v)
         for f in case.get('flags', []):
             keys.append('flag:' + f)
+    elif case['kind'] == 'pinned':
+        keys.append('pinned:' + ('ok' if obs['ok'] else 'fail'))
     else:
         keys.append('doc:' + ('ok' if obs['ok'] else 'fail'))
         keys.append('docmut:' + case.get('mut', '?'))
@@ -714,6 +742,24 @@ def classify(case, obs):
 def search_failing(ctx, broken):
     """spec oracle against the implementation: every stored root must load back equal with equal behaviour"""
     import random
+
+    def strip(d):
+        if isinstance(d, dict):
+            return {k: strip(v) for k, v in d.items() if k != 'oid'}
+        if isinstance(d, list):
+            return [strip(e) for e in d]
+        return d
+    pinned = os.path.join(vlib.VERIF, 'corpus', PID, 'pinned_documents.json')
+    if os.path.exists(pinned):
+        with open(pinned) as fh:
+            for case in json.load(fh):
+                obs = run_impl(case)
+                if 'crash' in obs or 'hang' in obs:
+                    return case, obs, 'implementation crashed: %s' % obs.get('crash', 'hang')
+                if not obs['ok']:
+                    return case, obs, 'a document written by the pinned code no longer loads: %s' % obs.get('why')
+                if strip(obs['loaded']) != strip(case['expect']) or not obs['iface_ok']:
+                    return case, obs, 'a document written by the pinned code loads to a different template'
     rng = random.Random(12345)
     for case in G.gen_cases(rng, 'quick', n_store=120, n_doc=0):
         obs = run_impl(case)
